@@ -282,3 +282,52 @@ def blame(CB, t, l, g, m):
             if best is None or sum(1 for _ in subtrees(s)) < sum(1 for _ in subtrees(best)):
                 best = s
     return best
+
+
+# ----------------------------------------------------------------------------- expression DAGs (shared sub-expressions)
+# dag = {'nodes': [['leaf', tree] | ['op', 'And'|'Or'|'Xor', i, j] | ['not', i]], 'roots': [[node index, 'early'|'late'], ...]}
+# Nodes are built in order with the REAL overloaded operators on the SAME Python objects, so a node used by two later
+# nodes is shared.  Root k carries the action of table entry k, attached right after the node was built ('early', i.e.
+# before it is reused) or after the whole DAG was built ('late').
+def dag_tree(dag, i):
+    """The expression a node denotes (sharing has no meaning for the documented predicate)."""
+    n = dag['nodes'][i]
+    if n[0] == 'leaf':
+        return n[1]
+    if n[0] == 'not':
+        return ('Not', dag_tree(dag, n[1]))
+    return (n[1], [dag_tree(dag, n[2]), dag_tree(dag, n[3])])
+
+
+def dag_build(CB, dag, acts):
+    objs = []
+    root_of = {node: k for k, (node, when) in enumerate(dag['roots'])}
+    when_of = {node: when for node, when in dag['roots']}
+    for i, n in enumerate(dag['nodes']):
+        if n[0] == 'leaf':
+            o = build(CB, n[1])
+        elif n[0] == 'not':
+            o = ~objs[n[1]]
+        else:
+            a, b = objs[n[2]], objs[n[3]]
+            o = (a & b) if n[1] == 'And' else (a | b) if n[1] == 'Or' else (a ^ b)
+        objs.append(o)
+        if when_of.get(i) == 'early':
+            o.set_action_callback(acts[root_of[i]])
+    for i, when in when_of.items():
+        if when == 'late':
+            objs[i].set_action_callback(acts[root_of[i]])
+    return [objs[node] for node, _ in dag['roots']]
+
+
+def dag_show(dag):
+    out = []
+    for i, n in enumerate(dag['nodes']):
+        if n[0] == 'leaf':
+            out.append(f'n{i} = {show(n[1])}')
+        elif n[0] == 'not':
+            out.append(f'n{i} = ~n{n[1]}')
+        else:
+            out.append(f'n{i} = n{n[2]} {dict(And="&", Or="|", Xor="^")[n[1]]} n{n[3]}')
+    out.append('actions: ' + ', '.join(f'n{node} ({when})' for node, when in dag['roots']))
+    return out
